@@ -5,7 +5,7 @@
   pmf `35/210, 105/210, 63/210, 7/210` on `0..3`, mode 1) satisfy `UnimodalPmfSpec`, and the
   `…_rel` theorems apply to that table.
 -/
-import Statrs.Draft.C16.FisherTwoSidedExamples
+import Statrs.Props.C16.FisherTwoSidedExamples
 set_option linter.unusedVariables false
 namespace Statrs.Props.C16
 open Statrs Statrs.Gen Statrs.Lemmas.Unimodal Statrs.Lemmas.UnimodalSums Statrs.Lemmas.TestsHyper
